@@ -5,6 +5,7 @@
 
 mod canon;
 mod gen;
+mod gperf;
 mod grad;
 mod gs;
 mod json;
@@ -25,6 +26,7 @@ fn main() {
         "gs_exh" => gs::main_exh(arg(&args, 2, 0), arg(&args, 3, 1), arg(&args, 4, 0)),
         "gs_rand" => gs::main_rand(arg(&args, 2, 0), arg(&args, 3, 100)),
         "strains" => strains::main(arg(&args, 2, 0), arg(&args, 3, 100), arg(&args, 4, 40)),
+        "gperf" => gperf::main(arg(&args, 2, 0), arg(&args, 3, 100), arg(&args, 4, 40)),
         "grad" => grad::main(arg(&args, 2, 0), arg(&args, 3, 100), arg(&args, 4, 40)),
         _ => {
             eprintln!("unknown subcommand {cmd:?}");
